@@ -349,7 +349,7 @@ prop(
     [{"lane": "lex", "n_quick": 4000, "n_thorough": 200000},
      {"lane": "fault", "n_quick": 3000, "n_thorough": 60000},
      {"lane": "full", "n_quick": 2000, "n_thorough": 40000},
-     {"lane": "patho", "n_quick": 200, "n_thorough": 400, "impl_only": True}],
+     {"lane": "patho", "n_quick": 240, "n_thorough": 400, "impl_only": True}],
     LEX_RULE + "; every lane of the harness runs in a build with overflow checks and debug assertions, each case under catch_unwind (a panic is an observation `PANIC …`, compared with the model which makes every panic site explicit); lane patho (implementation only): pathological shapes (deep nesting, one giant tag name / attribute list / attribute value / comment / doctype, '<' and '</' runs, foreign content, script escapes, select, CDATA, random markup bytes, hundreds of selectors, random selector strings) at sizes up to 4*10^6 bytes, in one write and in 4 KiB writes, with a deterministic work oracle (bytes handed to Parser::parse, counted by a hook, <= 2*len + 4 KiB) and a hard CPU bound",
     ["covers the parser / dispatcher / transform-stream core; panics in selectors/cssparser/encoding_rs/std and in the packages' own scopes (selector VM: C04_vm_never_panics; handlers: C05_no_panic; memory: C10_error_not_panic; nth: C04_nth_total) are those packages' theorems",
      "the two former open sites (U2: 'Tag should be a start tag at this point', RequestLexeme callback assertion) are closed by C15_no_panic_full at the cost of one more decidable table side-condition RelexSide (HeadOk, RelexOk, TextTypeOk, PhaseOk: the token-kind agreement between scanner and re-lexing lexer is a property of the table), decided on the regenerated table on every run",
